@@ -48,7 +48,7 @@ inductive NStep | passNonProvisional | register | collect | returnCollected
 deriving Repr, DecidableEq
 inductive GStep
   | loadDeps (isProduct : Bool) | loadProds (isProduct needsParam : Bool) | call | parseDefined (raisesIfNone : Bool)
-  | collectEach | raiseOnCollectFail | raiseOnNameClash | extendTasks | modifyTasks | recreate (c : RCond) | ret (v : Bool)
+  | collectEach | raiseOnCollectFail | raiseOnDuplicate | extendTasks | modifyTasks | recreate (c : RCond) | ret (v : Bool)
 deriving Repr, DecidableEq
 inductive TStep | setDag | renewSkipMarks | renewFailMarks | setScheduler
 deriving Repr, DecidableEq
@@ -310,7 +310,7 @@ def _is_raise_on_collect_fail(st: ast.For) -> bool:
     return exc is not None and _u(exc).startswith(f"{i}.exc_info")
 
 
-def _is_raise_on_name_clash(st: ast.For, sub) -> bool:
+def _is_raise_on_duplicate(st: ast.For, sub) -> bool:
     """6571c4f: `signatures = {t.signature for t in session.tasks}` … `for i in new_reports: if <collected task>: if i.node.signature
     in signatures: raise ValueError(…); signatures.add(i.node.signature)` — a defined task with the signature of a task of the
     session or of an earlier defined task makes the generator raise."""
@@ -375,10 +375,10 @@ def _gen_steps():
                     raise _err(f"{where}: collection errors are raised at an unexpected place")
                 steps.append(("raiseOnCollectFail",))
                 continue
-            if _is_raise_on_name_clash(st, sub):
+            if _is_raise_on_duplicate(st, sub):
                 if ("collectEach",) not in steps or ("extendTasks",) in steps:
                     raise _err(f"{where}: name clashes are raised at an unexpected place")
-                steps.append(("raiseOnNameClash",))
+                steps.append(("raiseOnDuplicate",))
                 continue
             raise _err(f"{where}: unrecognised loop {src[:100]!r}")
         if isinstance(st, ast.Expr) and isinstance(st.value, ast.Call):
